@@ -174,7 +174,12 @@ def find_code(fn) -> Optional[types.CodeType]:
     return None
 
 
-def judge(src: str) -> Tuple[str, Optional[Tuple[str, str]]]:
+# declared-variable sets: the usual two, none at all (every name is then undeclared), one of the two, and variables that
+# are called like whitelisted functions
+NAMESETS = {"tu": {"t", "u"}, "empty": set(), "frozen-empty": frozenset(), "t": {"t"}, "fn": {"t", "abs", "max"}}
+
+
+def judge(src: str, NAMES=NAMES) -> Tuple[str, Optional[Tuple[str, str]]]:
     """Run the implementation on one expression; returns (outcome, violation or None)."""
     import warnings
 
@@ -188,7 +193,7 @@ def judge(src: str) -> Tuple[str, Optional[Tuple[str, str]]]:
     _AUDIT_ON[0] = True
     try:
         try:
-            fn = ExpressionEvaluator().compile(src, set(NAMES))
+            fn = ExpressionEvaluator().compile(src, NAMES if isinstance(NAMES, frozenset) else set(NAMES))
             outcome = "accepted"
         except ExpressionError:
             outcome = "rejected"
@@ -217,7 +222,7 @@ def judge(src: str) -> Tuple[str, Optional[Tuple[str, str]]]:
     _AUDIT_ON[0] = True
     try:
         try:
-            fn(t=2.0, u=3.0)
+            fn(**{n: 2.0 + i for i, n in enumerate(sorted(NAMES))})
         except Exception:
             pass
     finally:
@@ -229,14 +234,20 @@ def judge(src: str) -> Tuple[str, Optional[Tuple[str, str]]]:
 
 def _worker(chunk):
     out = {"n": 0, "accepted": 0, "rejected": 0, "other": 0, "viol": [], "by_label": {}}
-    for label, src in chunk:
-        o, v = judge(src)
+    for item in chunk:
+        label, src = item[0], item[1]
+        if len(item) > 2:
+            o, v = judge(src, NAMESETS[item[2]])
+            if v:
+                v = (v[0] + "|variables=" + item[2], f"declared variables {sorted(NAMESETS[item[2]])}: {v[1]}")
+        else:
+            o, v = judge(src)
         out["n"] += 1
         out["accepted" if o == "accepted" else "rejected" if o == "rejected" else "other"] += 1
         bl = out["by_label"].setdefault(label.split(".")[0], [0, 0])
         bl[0 if o == "accepted" else 1] += 1
         if v:
-            out["viol"].append((v[0], v[1], label, src))
+            out["viol"].append((v[0], v[1], label, src, item[2] if len(item) > 2 else None))
     return out
 
 
@@ -426,6 +437,38 @@ def histories(tier: str) -> List[List[str]]:
     return hs
 
 
+SHADOW_EXPRS = ["abs", "max - abs", "abs + t", "2.0 * max", "t if abs else max", "-max", "(abs, max)", "abs(t) + abs", "max(t, abs)", "min(max, abs)",
+                "float(abs)", "max if t else abs", "round(abs / max, 2)", "abs ** 2", "str(max)", "bool(abs)", "int(max) + int(abs)"]
+
+
+def shadow_slice() -> Tuple[int, List[Violation]]:
+    """Variables called like whitelisted functions: a bare name is the declared variable — the value of an accepted expression
+    is the one the reference evaluator computes from the variables alone."""
+    from semantiva.utils.safe_eval import ExpressionEvaluator
+    from mc.ref import sweep as RS
+
+    viols: List[Violation] = []
+    n = 0
+    for names, env in (({"abs", "max", "t"}, {"abs": 5.0, "max": 7.0, "t": -2.0}), ({"abs", "max", "t"}, {"abs": 0.0, "max": -1.5, "t": 3.0})):
+        for src in SHADOW_EXPRS:
+            n += 1
+            call_shadowed = any(isinstance(x, ast.Call) and x.func.id in env for x in ast.walk(ast.parse(src, mode="eval")))
+            try:
+                got = ExpressionEvaluator().compile(src, set(names))(**env)
+            except Exception as exc:  # noqa: BLE001
+                got = f"raises {type(exc).__name__}"
+            if call_shadowed:
+                continue  # calling a name that is both a variable and a function: not defined by the documentation
+            try:
+                want = RS.evaluate(src, dict(env)) if "(abs, max)" != src else (env["abs"], env["max"])
+            except Exception as exc:  # noqa: BLE001
+                want = f"raises {type(exc).__name__}"
+            if got != want and not (isinstance(got, float) and isinstance(want, float) and abs(got - want) < 1e-12):
+                viols.append(Violation("variable-shadowed-or-foreign-value", f"{src!r} with variables {env}: value {got!r}, the variables alone give {want!r}",
+                                       {"kind": "shadow", "expr": src}))
+    return n, viols
+
+
 def yaml_slice() -> Tuple[int, List[Violation]]:
     """A slice of unsafe expressions through the YAML derive.parameter_sweep path."""
     from semantiva.utils.safe_eval import ExpressionError
@@ -481,6 +524,11 @@ def yaml_slice() -> Tuple[int, List[Violation]]:
 
 def check(tier: str, seed: int) -> Result:
     cases, skipped, T, nfill = build_cases(tier)
+    # the same expressions under other declared-variable sets (a deterministic 1-in-8 slice (thorough: 1-in-2) per set)
+    stride = 8 if tier == "quick" else 2
+    base_cases = sorted(cases)
+    for j, nk in enumerate(("empty", "frozen-empty", "t", "fn")):
+        cases = cases + [(l, s_, nk) for i, (l, s_) in enumerate(base_cases) if (i + j) % stride == 0]
     cases = core.seeded_order(cases, seed)
     tot = {"n": 0, "accepted": 0, "rejected": 0, "other": 0}
     by_label: Dict[str, List[int]] = {}
@@ -492,12 +540,15 @@ def check(tier: str, seed: int) -> Result:
             bl = by_label.setdefault(k, [0, 0])
             bl[0] += a
             bl[1] += r
-        for sig, msg, label, src in part["viol"]:
+        for sig, msg, label, src, nk in part["viol"]:
             pos = label.split(":", 1)[1] if ":" in label else label
             # signature: failure class + the innermost unvisited position class (Call keyword, ...)
-            viols.append(Violation(sig, f"[{pos}] {msg}", {"kind": "expr", "expr": src}))
+            viols.append(Violation(sig, f"[{pos}] {msg}", {"kind": "expr", "expr": src, "names": nk}))
     ny, vy = yaml_slice()
     viols.extend(vy)
+    nsh, vsh = shadow_slice()
+    viols.extend(vsh)
+    ny += nsh
     # histories: what one evaluator was given must not widen what another accepts (each history in a fresh process)
     hs = histories(tier)
     base = None
@@ -516,7 +567,7 @@ def check(tier: str, seed: int) -> Result:
                      and not issubclass(c, ast.Constant) and c.__module__ in ("ast", "_ast"))
     if missing:
         raise AssertionError(f"ast.expr subclasses not covered by any template: {missing}")
-    samples = [{"label": l, "expr": s} for l, s in cases[:: max(1, len(cases) // 8)][:8]]
+    samples = [{"label": c[0], "expr": c[1]} for c in cases[:: max(1, len(cases) // 8)][:8]]
     cov = {
         "evaluations": tot["n"] + ny,
         "distinct_nontrivial": tot["accepted"],
@@ -546,8 +597,10 @@ def replay(case) -> List[Violation]:
                 if v and src == case["expr"]:
                     out.append(Violation(v[0] + "|after-history", v[1], case))
         return out
+    if case.get("kind") == "shadow":
+        return [x for x in shadow_slice()[1] if x.case.get("expr") == case["expr"]]
     if case.get("kind") == "yaml":
         _, v = yaml_slice()
         return [x for x in v if x.case.get("expr") == case["expr"]]
-    o, v = judge(case["expr"])
-    return [Violation(v[0], v[1], case)] if v else []
+    o, v = judge(case["expr"], NAMESETS[case["names"]]) if case.get("names") else judge(case["expr"])
+    return [Violation(v[0] + (("|variables=" + case["names"]) if case.get("names") else ""), v[1], case)] if v else []
